@@ -79,7 +79,7 @@ class StatusObserver:
 
 def h_submit(shapes=("chain3",), bss=(1, 2), maxns=(None, 1), tas=(True,), time_based=False, G=1, fails=True,
              cancel_flags=True, lost=False, local=False, procs=None, max_steps=60, max_recoveries=None, rcs=(0, 1),
-             hooks=False, est_choices=(1, 5), wall="0:10:00", dry_run=False, hook_rcs=(0,)):
+             hooks=False, est_choices=(1, 5), wall="0:10:00", dry_run=False, hook_rcs=(0,), aliases=None):
     def harness(ex):
         from world.world import Hang
 
@@ -213,6 +213,9 @@ def h_submit(shapes=("chain3",), bss=(1, 2), maxns=(None, 1), tas=(True,), time_
                 continue
             k = ex.choice("s%d" % step, len(evs))
             ev = evs[k]
+            if aliases and ev[0] == "start":
+                # how the scheduler reports this batch while it runs (a non-finished state JADE may not know)
+                w.batches[ev[1]]["alias"] = aliases[ex.choice("alias_" + ev[1], len(aliases))]
             if ev[0] == "kill":
                 killed.add(ev[1])
                 if w.batches[ev[1]]["state"] == "PENDING":
